@@ -42,6 +42,10 @@ type c07Claim struct {
 	I    uint32   `json:"i"`   // leaf index selector (cons: old size selector)
 	S    uint32   `json:"s"`   // tree size selector
 	Muts []c07Mut `json:"muts,omitempty"`
+	// UseRaw (fuzz target): Raw replaces the honest proof before Muts are applied. hash/bytes/cons: Raw is
+	// cut into 32-byte hashes (a short tail is zero-padded); path: Raw IS the byte string given to MerkleProve.
+	UseRaw bool `json:"useraw,omitempty"`
+	Raw    ev.B `json:"raw,omitempty"`
 }
 
 type c07Case struct {
@@ -289,6 +293,11 @@ func (w *c07World) runInclusion(cl c07Claim, bytesAPI bool) (nontrivial bool) {
 		api = "bytes"
 	}
 	applied := 0
+	if cl.UseRaw {
+		c.proof = chunk32(cl.Raw)
+		applied++
+		ctx.Label("mut:" + api + ":raw-proof")
+	}
 	for _, m := range cl.Muts {
 		ok := true
 		switch m.K {
@@ -432,6 +441,9 @@ func (w *c07World) pathDTrue(value, flags []byte, hs []H, root []byte) bool {
 
 func (w *c07World) runPath(cl c07Claim) (nontrivial bool) {
 	ctx := w.ctx
+	if cl.UseRaw {
+		return w.runPathRaw(cl)
+	}
 	n := w.resolveSize(cl.S)
 	i := int(cl.I) % n
 	base, bflags := w.ref.path(i, 0, n)
@@ -587,13 +599,15 @@ type consClaim struct {
 func (w *c07World) runConsistency(cl c07Claim) (nontrivial bool) {
 	ctx := w.ctx
 	n := w.resolveSize(cl.S)
-	m := 1 + int(cl.I)%n
-	if m == n && n > 1 && cl.I%3 != 0 { // keep m == n (empty proof) a minority
-		m = 1 + int(cl.I/3)%(n-1)
-	}
+	m := consOldSize(cl.I, n)
 	base := w.ref.proof(m, n)
 	c := consClaim{m: uint32(m), n: uint32(n), oldRoot: w.ref.mth(0, m), newRoot: w.ref.mth(0, n), proof: base}
 	applied := 0
+	if cl.UseRaw {
+		c.proof = chunk32(cl.Raw)
+		applied++
+		ctx.Label("mut:cons:raw-proof")
+	}
 	for _, mu := range cl.Muts {
 		ok := true
 		switch mu.K {
@@ -737,6 +751,223 @@ func runC07(ctx *ev.Ctx, c c07Case) {
 			ctx.NonTrivial()
 		}
 	}
+}
+
+func consOldSize(sel uint32, n int) int {
+	m := 1 + int(sel)%n
+	if m == n && n > 1 && sel%3 != 0 { // keep m == n (empty proof) a minority
+		m = 1 + int(sel/3)%(n-1)
+	}
+	return m
+}
+
+func chunk32(raw []byte) []H {
+	var out []H
+	for len(raw) > 0 {
+		var h H
+		k := copy(h[:], raw)
+		out = append(out, h)
+		raw = raw[k:]
+	}
+	return out
+}
+
+// refParseLeafPath: the harness's own reader of varbytes(value) || {flag || hash}* (length prefix
+// 1/3/5/9 bytes little endian; like the node's decoder it does not insist on the shortest prefix,
+// canonical reports whether the shortest one was used).
+func refParseLeafPath(raw []byte) (value, flags []byte, hs []H, trailing []byte, canonical, ok bool) {
+	if len(raw) == 0 {
+		return
+	}
+	var l uint64
+	pre := 1
+	switch raw[0] {
+	case 0xFD:
+		pre = 3
+	case 0xFE:
+		pre = 5
+	case 0xFF:
+		pre = 9
+	}
+	if len(raw) < pre {
+		return
+	}
+	if pre == 1 {
+		l = uint64(raw[0])
+	} else {
+		for k := pre - 1; k >= 1; k-- {
+			l = l<<8 | uint64(raw[k])
+		}
+	}
+	canonical = len(refVarUint(l)) == pre
+	rest := raw[pre:]
+	if l > uint64(len(rest)) {
+		return
+	}
+	value = rest[:l]
+	rest = rest[l:]
+	for len(rest) >= 33 {
+		flags = append(flags, rest[0])
+		var h H
+		copy(h[:], rest[1:33])
+		hs = append(hs, h)
+		rest = rest[33:]
+	}
+	return value, flags, hs, rest, canonical, true
+}
+
+// runPathRaw: arbitrary bytes as the audit path of MerkleProve against the honest root of size n.
+func (w *c07World) runPathRaw(cl c07Claim) (nontrivial bool) {
+	ctx := w.ctx
+	n := w.resolveSize(cl.S)
+	i := int(cl.I) % n
+	base, _ := w.ref.path(i, 0, n)
+	root := w.ref.mth(0, n)
+	raw := []byte(cl.Raw)
+	ctx.Label("mut:path:raw-path")
+	var val []byte
+	var err error
+	if p := ev.Catch(func() { val, err = merkle.MerkleProve(append([]byte(nil), raw...), root[:]) }); p != "" {
+		ctx.Failf("MerkleProve panicked on path=%x root=%x\n%s", raw, root, p)
+	}
+	accepted := err == nil
+	value, flags, hs, trailing, canonical, ok := refParseLeafPath(raw)
+	if !ok {
+		if accepted {
+			ctx.Failf("MerkleProve ACCEPTS bytes that do not even hold a complete value: path=%x root=%x (size %d of %d leaves)", raw, root, n, w.n)
+		}
+		ctx.Label("verdict:path-raw:unparsable-rejected")
+		return true
+	}
+	norm := append([]byte(nil), flags...)
+	malleable := len(trailing) > 0 || !canonical
+	for j := range norm {
+		if norm[j] > 1 {
+			norm[j] = 1
+			malleable = true
+		}
+	}
+	E := refFoldLeafPath(value, norm, hs) == root
+	dTrue := !malleable && w.pathDTrue(value, flags, hs, root[:])
+	if dTrue && !E {
+		ctx.Failf("harness self-check: reference leaf path not reproduced by reference fold")
+	}
+	desc := fmt.Sprintf("path=%x (value=%x flags=%x %d hashes, %d trailing bytes) root=%x = MTH of the first %d of %d leaves", raw, value, flags, len(hs), len(trailing), root, n, w.n)
+	if accepted && !E {
+		ctx.Failf("MerkleProve ACCEPTS a leaf path whose recomputed root differs from the claimed root: %s", desc)
+	}
+	if accepted && !bytes.Equal(val, value) {
+		ctx.Failf("MerkleProve returned value %x, the path carries %x: %s", val, value, desc)
+	}
+	if accepted {
+		// the extracted value must be a committed leaf of that tree
+		w.buildIndexes()
+		found := false
+		for _, j := range w.valueIdx[string(val)] {
+			if j < n {
+				found = true
+			}
+		}
+		if !found {
+			ctx.Failf("MerkleProve extracted %x which is not among the first %d leaves: %s", val, n, desc)
+		}
+	}
+	switch {
+	case malleable && E:
+		if accepted {
+			ctx.Label("verdict:path-raw:malleable-encoding-accepted(unjudged)")
+		} else {
+			ctx.Label("verdict:path-raw:malleable-encoding-rejected(unjudged)")
+		}
+	case !accepted && E:
+		ctx.Failf("MerkleProve rejects (%v) a leaf path whose recomputed root equals the claimed root: %s", err, desc)
+	case dTrue:
+		ctx.Label("verdict:path-raw:true-accepted")
+	case E:
+		ctx.Label("verdict:path-raw:false-for-known-leaves-but-rfc-recomputation-confirms-accepted")
+	default:
+		ctx.Label("verdict:path-raw:false-rejected")
+	}
+	return len(base) >= 2 && !dTrue
+}
+
+// ---------------------------------------------------------------------------------------------
+// FuzzC07: coverage-guided bytes -> one claim on a small tree, judged by runC07.
+//   d[0] tree size (table)  d[1] leaf style  d[2] verifier (hash|bytes|path|cons)  d[3] leaf index / old size
+//   selector  d[4] claimed-size selector  d[5] even: payload is the raw proof / raw audit path,
+//   odd: payload is a mutation script {kind, a(2), b(2), xlen, x...}* applied to the genuine proof.
+
+var fuzzC07Sizes = []int{1, 2, 3, 4, 5, 6, 7, 8, 9, 11, 13, 15, 16, 17, 21, 32, 33}
+var fuzzC07Leaf = []string{"h32", "short", "len64", "dup"}
+var fuzzC07API = []string{"hash", "bytes", "path", "cons"}
+
+func decodeFuzzC07(d []byte) (c07Case, bool) {
+	if len(d) < 6 || len(d) > 6+2048 {
+		return c07Case{}, false
+	}
+	c := c07Case{N: fuzzC07Sizes[int(d[0])%len(fuzzC07Sizes)], Seed: 0, Leaf: fuzzC07Leaf[int(d[1])%len(fuzzC07Leaf)]}
+	cl := c07Claim{API: fuzzC07API[int(d[2])%len(fuzzC07API)], I: uint32(d[3]), S: uint32(d[4])}
+	p := d[6:]
+	if d[5]%2 == 0 {
+		cl.UseRaw = true
+		cl.Raw = ev.B(append([]byte(nil), p...))
+	} else {
+		kinds := c07Kinds[cl.API]
+		for len(p) >= 6 && len(cl.Muts) < 8 {
+			m := c07Mut{K: kinds[int(p[0])%len(kinds)], A: uint32(p[1]) | uint32(p[2])<<8, B: uint32(p[3]) | uint32(p[4])<<8}
+			if p[4]&0x80 != 0 {
+				m.B |= 0xFFFF0000 // lets sizes / indices reach the top of the uint32 range
+			}
+			xl := int(p[5]) % 33
+			p = p[6:]
+			if xl > len(p) {
+				xl = len(p)
+			}
+			m.X = ev.B(append([]byte(nil), p[:xl]...))
+			p = p[xl:]
+			cl.Muts = append(cl.Muts, m)
+		}
+	}
+	c.Claims = []c07Claim{cl}
+	return c, true
+}
+
+func FuzzC07(f *testing.F) {
+	// seeds: genuine proofs (raw form) for sizes 1, 2, 3, 8, 13, every verifier; plus two scripts
+	for _, n := range []int{1, 2, 3, 8, 13} {
+		si := 0
+		for k, v := range fuzzC07Sizes {
+			if v == n {
+				si = k
+			}
+		}
+		ref := newRefTree()
+		var data [][]byte
+		for i := 0; i < n; i++ {
+			data = append(data, c07Leaf("h32", 0, i))
+			ref.add(data[i])
+		}
+		for _, sel := range []int{0, n / 2, n - 1} {
+			i := sel % n
+			hs, flags := ref.path(i, 0, n)
+			var flat []byte
+			for _, h := range hs {
+				flat = append(flat, h[:]...)
+			}
+			f.Add(append([]byte{byte(si), 0, 0, byte(sel), 0, 0}, flat...))
+			f.Add(append([]byte{byte(si), 0, 1, byte(sel), 0, 0}, flat...))
+			f.Add(append([]byte{byte(si), 0, 2, byte(sel), 0, 0}, refEncodeLeafPath(data[i], flags, hs, nil)...))
+			var cflat []byte
+			for _, h := range ref.proof(consOldSize(uint32(sel), n), n) {
+				cflat = append(cflat, h[:]...)
+			}
+			f.Add(append([]byte{byte(si), 0, 3, byte(sel), 0, 0}, cflat...))
+		}
+	}
+	f.Add([]byte{7, 0, 0, 3, 0, 1})                                      // honest, empty script
+	f.Add([]byte{10, 0, 3, 5, 0, 1, 0, 1, 0, 1, 0, 0})                   // consistency, one altered hash
+	f.Add([]byte{7, 0, 2, 2, 0, 1, 5, 1, 0, 0, 0, 0, 11, 0, 0, 0, 0, 0}) // path: flag flip + root
+	ev.Fuzz(f, "C07", "TestC07", decodeFuzzC07, runC07)
 }
 
 func TestC07(t *testing.T) {
